@@ -85,6 +85,31 @@ class WrapperModel:
     """Name of the list that collects names (or indexes) of entries of
     `source` (the *args / **kwargs parameter) whose value `is REQUIRED`."""
     f = self.f
+    # comprehension forms:  X = [elt for ... in <source...> if v is REQUIRED]
+    comps = []
+    for a in walk_local(f.node):
+      if isinstance(a, ast.Assign) and len(a.targets) == 1 and isinstance(a.targets[0], ast.Name) \
+          and isinstance(a.value, (ast.ListComp, ast.SetComp)) and len(a.value.generators) == 1:
+        comps.append((a.targets[0].id, a.value))
+    idx_lists = set()
+    for name, c in comps:
+      gen = c.generators[0]
+      if source not in {n.id for n in ast.walk(gen.iter) if isinstance(n, ast.Name)}:
+        continue
+      if not any(isinstance(i, ast.Compare) and len(i.ops) == 1 and isinstance(i.ops[0], ast.Is) and u(i.comparators[0]) == REQ for i in gen.ifs):
+        continue
+      is_index = 'enumerate' in u(gen.iter) and isinstance(gen.target, ast.Tuple) and isinstance(c.elt, ast.Name) \
+          and isinstance(gen.target.elts[0], ast.Name) and c.elt.id == gen.target.elts[0].id
+      if is_index:
+        idx_lists.add(name)
+      if is_index == indexes:
+        return name
+    if not indexes:
+      # names derived from an index list:  X = [names[i] for i in <index list>]
+      for name, c in comps:
+        gen = c.generators[0]
+        if isinstance(gen.iter, ast.Name) and gen.iter.id in idx_lists and isinstance(c.elt, ast.Subscript) and not gen.ifs:
+          return name
     for lp in walk_local(f.node):
       if not isinstance(lp, ast.For):
         continue
@@ -132,8 +157,73 @@ class WrapperModel:
       if not okc:
         continue
       lpn = [x for x in g.live_nodes() if x.kind == 'for' and x.ast is lp]
-      out.append(PopLoop(n, c.func.value.id, u(lp.iter), exc, lpn[0] if lpn else None))
+      terms = self.nameset(lp.iter) or {(u(lp.iter), None)}
+      for src, x in sorted(terms, key=str):
+        out.append(PopLoop(n, c.func.value.id, src, exc if x is None else x, lpn[0] if lpn else None))
+    # filtering by rebinding:  D = {k: v for k, v in D.items() if k not in S}
+    for n in g.live_nodes():
+      s_ = n.ast
+      if n.kind == 'stmt' and isinstance(s_, ast.Assign) and len(s_.targets) == 1 and isinstance(s_.targets[0], ast.Name) \
+          and isinstance(s_.value, ast.DictComp) and len(s_.value.generators) == 1:
+        gen = s_.value.generators[0]
+        d = s_.targets[0].id
+        if u(gen.iter) == d + '.items()' and isinstance(gen.target, ast.Tuple) and len(gen.ifs) == 1 \
+            and isinstance(gen.ifs[0], ast.Compare) and isinstance(gen.ifs[0].ops[0], ast.NotIn) and u(gen.ifs[0].left) == u(gen.target.elts[0]) \
+            and u(s_.value.key) == u(gen.target.elts[0]) and u(s_.value.value) == u(gen.target.elts[1]):
+          for src, x in sorted(self.nameset(gen.ifs[0].comparators[0]), key=str):
+            out.append(PopLoop(n, d, src, x, n))
     return out
+
+  def nameset(self, e, seen=frozenset()):
+    """Terms (SRC, EXC) such that `e` evaluates to the names of SRC that are not in EXC."""
+    f = self.f
+    if isinstance(e, ast.Name):
+      if e.id in (self.posnames, self.K):
+        return {(e.id, None)}
+      if e.id in seen:
+        return set()
+      out = set()
+      found = False
+      for a in walk_local(f.node):
+        if isinstance(a, ast.Assign) and len(a.targets) == 1 and u(a.targets[0]) == e.id:
+          found = True
+          out |= self.nameset(a.value, seen | {e.id})
+        elif isinstance(a, ast.AugAssign) and u(a.target) == e.id and isinstance(a.op, (ast.Add, ast.BitOr)):
+          out |= self.nameset(a.value, seen | {e.id})
+        elif isinstance(a, ast.Expr) and isinstance(a.value, ast.Call) and isinstance(a.value.func, ast.Attribute) \
+            and u(a.value.func.value) == e.id and a.value.func.attr in ('extend', 'update') and a.value.args:
+          out |= self.nameset(a.value.args[0], seen | {e.id})
+      return out if found else set()
+    if isinstance(e, (ast.ListComp, ast.SetComp, ast.GeneratorExp)) and len(e.generators) == 1:
+      gen = e.generators[0]
+      if not (isinstance(gen.target, ast.Name) and isinstance(e.elt, ast.Name) and e.elt.id == gen.target.id):
+        return set()
+      exc = None
+      for i in gen.ifs:
+        if isinstance(i, ast.Compare) and len(i.ops) == 1 and isinstance(i.ops[0], ast.NotIn) and u(i.left) == gen.target.id:
+          exc = u(i.comparators[0])
+        else:
+          return set()
+      return {(src, exc if x is None else x) for src, x in self.nameset(gen.iter, seen)}
+    if isinstance(e, ast.BinOp) and isinstance(e.op, (ast.Add, ast.BitOr)):
+      return self.nameset(e.left, seen) | self.nameset(e.right, seen)
+    if isinstance(e, ast.Call):
+      fn = u(e.func)
+      if fn in ('set', 'list', 'tuple', 'sorted', 'frozenset') and len(e.args) == 1:
+        return self.nameset(e.args[0], seen)
+      if fn in ('itertools.chain',):
+        out = set()
+        for a in e.args:
+          out |= self.nameset(a, seen)
+        return out
+      if isinstance(e.func, ast.Attribute) and e.func.attr == 'keys' and not e.args:
+        return self.nameset(e.func.value, seen)
+    if isinstance(e, (ast.List, ast.Tuple)) and all(isinstance(x, ast.Starred) for x in e.elts) and e.elts:
+      out = set()
+      for x in e.elts:
+        out |= self.nameset(x.value, seen)
+      return out
+    return set()
 
   def removed_before(self, target, node_id):
     """Texts of NAMES collections whose non-excluded members are popped from
